@@ -109,6 +109,127 @@ theorem feature_flip_flip_perm (n : Nat) (f : Feature) :
   · rw [List.map_reverse, key]; exact List.reverse_perm _
   · rw [List.map_reverse, List.reverse_reverse, key]
 
+/-- **flipping a feature twice gives the feature back exactly** — the parts in their listed order too: the order
+of the parts of a join is the order of its exons, part of what the feature denotes -/
+theorem feature_flip_flip (n : Nat) (f : Feature) : (f.flip n).flip n = f := by
+  have key : ∀ ps : List Part, (ps.map (Part.flip n)).map (Part.flip n) = ps := by
+    intro ps; rw [List.map_map]
+    have : (Part.flip n ∘ Part.flip n) = id := by funext p; exact flip_flip n p
+    rw [this, List.map_id]
+  have hall : ∀ ps : List Part, (ps.map (Part.flip n)).all (fun p => decide (p.strand = 0)) = ps.all (fun p => decide (p.strand = 0)) := by
+    intro ps
+    rw [List.all_map]
+    congr 1
+    funext p
+    simp only [Function.comp, Part.flip]
+    by_cases h0 : p.strand = 0
+    · simp [h0]
+    · have : ¬ (-p.strand = 0) := by omega
+      simp [h0, this]
+  cases f with
+  | mk ftype qual parts cites =>
+    unfold Feature.flip
+    simp only []
+    by_cases hc : parts.length > 1 ∧ parts.all (fun p => decide (p.strand = 0)) = true
+    · have hc' : (parts.map (Part.flip n)).reverse.length > 1 ∧
+          (parts.map (Part.flip n)).reverse.all (fun p => decide (p.strand = 0)) = true := by
+        refine ⟨by simpa using hc.1, ?_⟩
+        rw [List.all_reverse, hall]; exact hc.2
+      simp only [hc, and_self, if_true, hc']
+      rw [List.map_reverse, List.reverse_reverse, key]
+    · have hc' : ¬ ((parts.map (Part.flip n)).length > 1 ∧
+          (parts.map (Part.flip n)).all (fun p => decide (p.strand = 0)) = true) := by
+        rw [hall, List.length_map]; exact hc
+      simp only [hc, if_false, hc']
+      rw [key]
+
+/-- `s, s+1, …` (`k` positions) and `e-1, e-2, …` (`k` positions) -/
+def ascI (s : Int) : Nat → List Int
+  | 0 => []
+  | k + 1 => s :: ascI (s + 1) k
+def descI (e : Int) : Nat → List Int
+  | 0 => []
+  | k + 1 => (e - 1) :: descI (e - 1) k
+
+theorem ascI_mirror (c : Int) : ∀ (k : Nat) (s : Int), (ascI s k).map (fun t => c - 1 - t) = descI (c - s) k
+  | 0, _ => rfl
+  | k + 1, s => by
+    simp only [ascI, descI, List.map_cons]
+    rw [ascI_mirror c k (s + 1)]
+    have h1 : c - 1 - s = c - s - 1 := by omega
+    have h2 : c - (s + 1) = c - s - 1 := by omega
+    rw [h1, h2]
+
+theorem descI_mirror (c : Int) : ∀ (k : Nat) (e : Int), (descI e k).map (fun t => c - 1 - t) = ascI (c - e) k
+  | 0, _ => rfl
+  | k + 1, e => by
+    simp only [ascI, descI, List.map_cons]
+    rw [descI_mirror c k (e - 1)]
+    have h1 : c - 1 - (e - 1) = c - e := by omega
+    have h2 : c - (e - 1) = c - e + 1 := by omega
+    rw [h1, h2]
+
+/-- the nucleotides of a part in the order the feature reads them (its own 5'→3'): a minus-strand part from its end
+to its start -/
+def partReading (p : Part) : List (Int × Int) :=
+  if p.strand = -1 then (descI p.e (p.e - p.s).toNat).map (fun t => (t, p.strand))
+  else (ascI p.s (p.e - p.s).toNat).map (fun t => (t, p.strand))
+
+/-- … and of a feature: its parts in listed order -/
+def reading (f : Feature) : List (Int × Int) := f.parts.flatMap partReading
+
+theorem partReading_flip (n : Nat) (p : Part) (hs : p.strand = 1 ∨ p.strand = -1) :
+    partReading (p.flip n) = (partReading p).map (fun x => ((n : Int) - 1 - x.1, -x.2)) := by
+  have hlen : ((n : Int) - p.s - ((n : Int) - p.e)).toNat = (p.e - p.s).toNat := by congr 1; omega
+  rcases hs with h | h
+  · have e1 : partReading (p.flip n) = (descI ((n : Int) - p.s) (p.e - p.s).toNat).map (fun t => (t, (-1 : Int))) := by
+      unfold partReading
+      simp only [Part.flip, h, hlen]
+      rfl
+    have e2 : partReading p = (ascI p.s (p.e - p.s).toNat).map (fun t => (t, (1 : Int))) := by
+      unfold partReading
+      rw [if_neg (by rw [h]; decide), h]
+    rw [e1, e2, List.map_map, ← ascI_mirror (n : Int), List.map_map]
+    rfl
+  · have e1 : partReading (p.flip n) = (ascI ((n : Int) - p.e) (p.e - p.s).toNat).map (fun t => (t, (1 : Int))) := by
+      unfold partReading
+      simp only [Part.flip, h, hlen]
+      rfl
+    have e2 : partReading p = (descI p.e (p.e - p.s).toNat).map (fun t => (t, (-1 : Int))) := by
+      unfold partReading
+      rw [if_pos h, h]
+    rw [e1, e2, List.map_map, ← descI_mirror (n : Int), List.map_map]
+    rfl
+
+/-- **a stranded feature of the reverse complement reads the mirrored nucleotides in the same order**: the exons of a
+join stay in their order, each read on the other strand -/
+theorem reading_order_mirrored (n : Nat) (f : Feature) (hs : ∀ p ∈ f.parts, p.strand = 1 ∨ p.strand = -1) :
+    reading (f.flip n) = (reading f).map (fun x => ((n : Int) - 1 - x.1, -x.2)) := by
+  have hparts : (f.flip n).parts = f.parts.map (Part.flip n) := by
+    unfold Feature.flip
+    simp only []
+    split
+    · rename_i hc
+      exfalso
+      cases hp : f.parts with
+      | nil => rw [hp] at hc; simp at hc
+      | cons p ps =>
+        have h0 : p.strand = 0 := by
+          have := hc.2
+          rw [hp, List.all_cons, Bool.and_eq_true] at this
+          exact of_decide_eq_true this.1
+        rcases hs p (by rw [hp]; exact List.mem_cons_self ..) with h | h <;> omega
+    · rfl
+  unfold reading
+  rw [hparts, List.flatMap_map, List.map_flatMap]
+  apply List.flatMap_congr
+  intro p hp
+  exact partReading_flip n p (hs p hp)
+
+/-! non-vacuity: an origin-spanning join listed out of coordinate order keeps its exon order -/
+example : reading (Feature.flip 10 ⟨1, .user 0, [⟨8, 10, 1⟩, ⟨0, 2, 1⟩], []⟩)
+    = [(1, -1), (0, -1), (9, -1), (8, -1)] := by decide
+
 /-- the record: sequence reverse-complemented, one flipped feature per feature (re-sorted) -/
 theorem record_rc (r : Rec) :
     r.rc.seq = rc r.seq ∧ r.rc.feats.Perm (r.feats.map (Feature.flip r.seq.length)) := by
